@@ -20,6 +20,7 @@ func init() {
 }
 
 func runC11(r *Run) {
+	defer importProcessLocal(r, "RM", "x/liquidvesting")
 	P := r.P
 	const lk = "x/liquidvesting/keeper"
 	modName, _ := P.constOf(haqqMod+"/x/liquidvesting/types", "ModuleName")
